@@ -394,6 +394,90 @@ example : ∀ e ∈ (run 1 (exEvict ++ [.present 50000 0 0 exA.length exA 2])).2
     · exact exEvict_wf o h
     · simp at h; subst h; exact Or.inl (by decide))
 
+/-! ## the public entry points -/
+
+/-- Every public entry point (MHD_digest_auth_check3, _check_digest3 and the legacy
+    _check2, _check, _check_digest2, _check_digest) is the vetting sequence with its
+    arguments mapped by `Api.args`, i.e. a `present` operation: all the theorems about
+    arbitrary operation sequences above cover presentations through any mix of them. -/
+theorem api_is_present (a : Api) (tbl : Table) (now tmo mx sl : Nat) (n : Bytes) (c : Nat) :
+    presentApi a tbl now tmo mx sl n c =
+      step tbl (.present now (a.args tmo mx).1 (a.args tmo mx).2 sl n c) := rfl
+
+/-- The nonce lifetime the application asks for reaches the vetting sequence unchanged
+    through every entry point; `max_nc` does through the two `…3` functions, the legacy
+    ones (which have no such parameter) pass 0 = the daemon default. -/
+theorem api_args (a : Api) (tmo mx : Nat) :
+    (a.args tmo mx).1 = tmo ∧ (a.args tmo mx).2 = (if a.legacy then 0 else mx) := by
+  cases a <;> exact ⟨rfl, rfl⟩
+
+/-- the `max_nc` in force for a call of entry point `a` with argument `mx` -/
+def effMaxNc (a : Api) (mx : Nat) : Nat := if a.legacy ∨ mx = 0 then defMaxNc else mx
+
+theorem effMaxNc_eq (a : Api) (tmo mx : Nat) :
+    (if (a.args tmo mx).2 = 0 then defMaxNc else (a.args tmo mx).2) = effMaxNc a mx := by
+  cases a <;> simp [Api.args, effMaxNc, Api.legacy] <;> rfl
+
+/-- Through every entry point: a (well-formed) nonce older than the lifetime the
+    application asked for (0 = daemon default) is reported stale — `MHD_INVALID_NONCE`
+    for the legacy functions — and the table is untouched. -/
+theorem expired_is_stale_api (a : Api) (tbl : Table) (now tmo mx : Nat) (n : Bytes) (c t : Nat)
+    (hc : c ≠ 0) (hmx : c ≤ effMaxNc a mx)
+    (ht : getNonceTimestamp n n.length = .ts t)
+    (hexp : trim (sub64 now t) > ((if tmo = 0 then defTimeout else tmo) * 1000) % 2 ^ timeoutBits) :
+    presentApi a tbl now tmo mx n.length n c = (tbl, .stale) ∧
+    (a.legacy = true → a.result .stale = .invalidNonce) ∧ (a.legacy = false → a.result .stale = .res .stale) := by
+  refine ⟨?_, ?_, ?_⟩
+  · unfold presentApi
+    apply expired_is_stale tbl now _ _ n c t hc
+    · rw [effMaxNc_eq]; exact hmx
+    · exact ht
+    · rw [(api_args a tmo mx).1]; exact hexp
+  · intro h; simp [Api.result, h]
+  · intro h; simp [Api.result, h]
+
+/-- Through every entry point: a count above the `max_nc` in force (the argument of the
+    `…3` functions, otherwise the daemon default — never the lifetime argument) is
+    reported stale. -/
+theorem above_max_nc_is_stale_api (a : Api) (tbl : Table) (now tmo mx sl : Nat) (n : Bytes) (c : Nat)
+    (hc : c ≠ 0) (hmx : effMaxNc a mx < c) :
+    presentApi a tbl now tmo mx sl n c = (tbl, .stale) := by
+  unfold presentApi
+  apply above_max_nc_is_stale tbl now _ _ sl n c hc
+  rw [effMaxNc_eq]; exact hmx
+
+/-- Through every entry point, at any point of any run: a fresh count inside the window
+    of the nonce registered last in its slot, not above the `max_nc` in force, on a nonce
+    not older than the requested lifetime, is accepted (`MHD_YES` for the legacy ones). -/
+theorem window_complete_api (a : Api) (size : Nat) (ops : List Op) (hwf : ∀ o ∈ ops, o.Wf)
+    (now tmo mx : Nat) (n : Bytes) (t c : Nat)
+    (hla : lastAdd size (run size ops).2 (slotIdx size n) = some n)
+    (hc0 : c ≠ 0) (hcg : c < ncGuard)
+    (hnew : c ∉ usedSince size (run size ops).2 (slotIdx size n))
+    (hwin : ∀ u ∈ usedSince size (run size ops).2 (slotIdx size n), u ≤ c + 64)
+    (hmx : c ≤ effMaxNc a mx)
+    (ht : getNonceTimestamp n n.length = .ts t)
+    (hexp : trim (sub64 now t) ≤ ((if tmo = 0 then defTimeout else tmo) * 1000) % 2 ^ timeoutBits) :
+    (presentApi a (run size ops).1 now tmo mx n.length n c).2 = .ok ∧
+    (a.legacy = true → a.result .ok = .yes) := by
+  refine ⟨?_, fun h => by simp [Api.result, h]⟩
+  rw [api_is_present]
+  apply window_complete_present size ops hwf now _ _ n t c hla hc0 hcg hnew hwin
+  · rw [effMaxNc_eq]; exact hmx
+  · exact ht
+  · rw [(api_args a tmo mx).1]; exact hexp
+
+/-- instance (the seeded-change scenario): lifetime 5 s through MHD_digest_auth_check_digest2,
+    nonce made at t = 1000, presented at t = 7000 → stale; and count 20 is below the
+    max_nc in force (1000), so `above_max_nc_is_stale_api` does not apply to it -/
+example : presentApi .checkDigest2 (run 1 (exOps 5)).1 7000 5 0 exA.length exA 7 = ((run 1 (exOps 5)).1, .stale) :=
+  (expired_is_stale_api .checkDigest2 _ 7000 5 0 exA 7 1000 (by decide) (by decide) (by decide +kernel)
+    (by decide +kernel)).1
+example : effMaxNc .checkDigest2 0 = 1000 ∧ effMaxNc .check3 5 = 5 := by decide
+example : (presentApi .checkDigest2 (run 1 (exOps 5)).1 3000 5 0 exA.length exA 20).2 = .ok :=
+  (window_complete_api .checkDigest2 1 (exOps 5) (exOps_wf 5) 3000 5 0 exA 1000 20 (by decide +kernel) (by decide)
+    (by decide) (by decide +kernel) (by decide +kernel) (by decide) (by decide +kernel) (by decide +kernel)).1
+
 /-! ## why presented nonces are asked to be NUL-free -/
 
 /-- a 76-character nonce made at t = 1000 -/
